@@ -1,5 +1,5 @@
 (* C15 -- Concurrent use of the in-memory FS is race-free and atomic per operation.
-   Model: Conc/Conc.v -- Mkdir, Remove, Stat, Chmod and the Rename of a non-directory of keyvalue.FS as resumable programs whose atomic
+   Model: Conc/Conc.v -- Mkdir, MkdirAll, Remove, Stat, Chmod and the Rename of a non-directory of keyvalue.FS as resumable programs whose atomic
    steps are store transactions (and the lazy directory listing); [explore] enumerates EVERY
    interleaving, [explore_seq] every sequential order of whole operations.  The outcome sets of the
    model are compared with those of the real code (all schedules forced on it) on every run.
@@ -8,7 +8,7 @@
    stress; the race detector in the thorough tier).
    Conc/Commute.v proves the "unrelated paths" clause in general: any number of goroutines, any programs over
    the alphabet, any store, any schedule (non-interference by read/write regions). *)
-From HP Require Import Base.Prelude Base.Path Base.PathProofs Base.DirProofs KV.Types Conc.Conc Conc.ConcProofs Conc.Commute Txn.Txn Txn.TxnProofs.
+From HP Require Import Base.Prelude Base.Path Base.PathProofs Base.DirProofs KV.Types Conc.Conc Conc.ConcProofs Conc.Commute Conc.NoOrphan Txn.Txn Txn.TxnProofs.
 Open Scope nat_scope.
 
 (* The property as stated (every interleaving equals some sequential order) is FALSE of the code:
@@ -25,6 +25,22 @@ Theorem C15_orphan_reachable_refuted :
           (explore 100 s0 (map g_init mkdir_vs_remove)) = true.
 Proof. exact orphan_reachable. Qed.
 Print Assumptions C15_orphan_reachable_refuted.
+
+(* Orphans need a remover.  The orphan of [C15_orphan_reachable_refuted] needs a Remove: with any number of goroutines
+   running ANY programs over Mkdir, MkdirAll (of real-name paths), Chmod and Stat, from any well-formed tree, under EVERY
+   interleaving and at EVERY point of the run, the store is a well-formed tree -- the root is a directory and every
+   entry's parent is a directory.  (MkdirAll creates the missing chain from the outermost directory inwards, one
+   transaction per level; creating the deepest one first would break this theorem's proof and the correspondence.) *)
+Theorem C15_no_orphan_without_a_remover : forall progs s0 s gs,
+  wf s0 -> (forall ops o, In ops progs -> In o ops -> allowed o) ->
+  reach s0 (map g_init progs) s gs -> wf s.
+Proof. exact no_orphan_without_a_remover. Qed.
+Print Assumptions C15_no_orphan_without_a_remover.
+
+Theorem C15_no_orphan_nonvacuous :
+  wf demo_tree /\ allowed (CMkdirAll (S "d/x/y")) /\ allowed (CMkdir (S "d/x")) /\ ~ allowed (CRemove (S "d")).
+Proof. exact no_orphan_demo. Qed.
+Print Assumptions C15_no_orphan_nonvacuous.
 
 (* "Operations on unrelated paths do not influence each other", in general.  For ANY list of goroutine programs in
    which no path written by one goroutine lies in the read region of another (the path itself, the ancestors its
